@@ -56,25 +56,30 @@ type Runner struct {
 	Env    []string // MoqEnv
 	Base   string   // scratch directory for scenario modules
 
-	usageOnce sync.Once
-	usage     map[string]bool
+	// scenario-local (Run works on a private copy of the Runner)
+	orderSeed uint64
+	procSeq   int
 }
+
+var usageCache sync.Map // moq binary -> map[string]bool
 
 // usageLines returns the lines moq prints to standard error for -h: the flag
 // defaults, which it also prints after every error. They are not a diagnostic.
 func (r *Runner) usageLines() map[string]bool {
-	r.usageOnce.Do(func() {
-		r.usage = map[string]bool{}
-		cmd := exec.Command(r.MoqBin, "-h")
-		cmd.Env = r.Env
-		var se bytes.Buffer
-		cmd.Stderr = &se
-		cmd.Run()
-		for _, l := range strings.Split(se.String(), "\n") {
-			r.usage[strings.TrimSpace(l)] = true
-		}
-	})
-	return r.usage
+	if u, ok := usageCache.Load(r.MoqBin); ok {
+		return u.(map[string]bool)
+	}
+	usage := map[string]bool{}
+	cmd := exec.Command(r.MoqBin, "-h")
+	cmd.Env = r.Env
+	var se bytes.Buffer
+	cmd.Stderr = &se
+	cmd.Run()
+	for _, l := range strings.Split(se.String(), "\n") {
+		usage[strings.TrimSpace(l)] = true
+	}
+	usageCache.Store(r.MoqBin, usage)
+	return usage
 }
 
 // diagnostic returns what standard error holds beyond the usage text.
@@ -209,6 +214,9 @@ func (r *Runner) runMoq(cwd string, args []string, plan *simos.Rule, tmp string)
 
 func (r *Runner) runMoqTo(cwd string, args []string, plan *simos.Rule, tmp string, stdoutPath string) procResult {
 	env := append([]string(nil), r.Env...)
+	r.procSeq++
+	// each process iterates its maps in its own, reproducible order
+	env = append(env, fmt.Sprintf("SIMHOOK_SEED=%d", r.orderSeed*1000003+uint64(r.procSeq)))
 	logPath := filepath.Join(tmp, "oplog.jsonl")
 	os.Remove(logPath)
 	env = append(env, "SIMOS_LOG="+logPath)
@@ -372,6 +380,7 @@ type world struct {
 	outReal   string // where a symlinked -out really lives ("" otherwise)
 	version   int
 	aliased   bool
+	readonly  bool // the -out file was made read-only (0444) and not replaced since
 	broken    bool
 	prior     string // absent, own, stale, truncate, garbage, empty, otherpkg, selfdecl, aliases, torn, dir
 	lastRun   *Step
@@ -381,7 +390,8 @@ type world struct {
 }
 
 // Run executes a scenario in a fresh scratch module and returns findings.
-func (r *Runner) Run(sc *Scenario, id string) ([]Finding, *Stats, error) {
+func (shared *Runner) Run(sc *Scenario, id string) ([]Finding, *Stats, error) {
+	r := &Runner{MoqBin: shared.MoqBin, Env: shared.Env, Base: shared.Base, orderSeed: sc.Seed % 1000000007}
 	st := &Stats{FaultsFired: map[string]int{}, Outcomes: map[string]int{}, Priors: map[string]int{}}
 	root := filepath.Join(r.Base, "scn-"+id)
 	os.RemoveAll(root)
@@ -440,6 +450,7 @@ func (r *Runner) Run(sc *Scenario, id string) ([]Finding, *Stats, error) {
 				// not damage to the bytes: the generated file is kept read-only (0444)
 				if err == nil {
 					os.Chmod(outAbs, 0o444)
+					w.readonly = true
 					w.touched = true
 					tr("step %d: -out made read-only (0444)", i)
 				}
@@ -548,11 +559,13 @@ func (r *Runner) runStep(sc *Scenario, i int, step Step, w *world, M, srcDir, ou
 		add(i, "C18", "tree-changed-without-out", "", "moq %s (no -out) changed the tree: %s", strings.Join(refArgs, " "), d)
 	}
 	for _, e := range ref.Log {
-		if mutating(e) {
+		if mutating(e) && strings.HasPrefix(e.Path, refRoot+string(filepath.Separator)) {
 			add(i, "C18", "wrote-without-out", e.Prim, "moq %s (no -out) performed %s %s", strings.Join(refArgs, " "), e.Prim, relTo(refRoot, e.Path))
 		}
 	}
-	mustFail := step.NoArgs || w.broken || (step.Bad != "" && step.Bad != "noargs" && !(step.Bad == "badalias" && hasFmtNoop(step.Flags)))
+	// a source package with a broken sibling file is left to the differential
+	// oracle: a moq that can still load what it needs may succeed
+	mustFail := step.NoArgs || (step.Bad != "" && step.Bad != "noargs" && !(step.Bad == "badalias" && hasFmtNoop(step.Flags)))
 	checkFailure := func(what string, res procResult, args []string) {
 		if res.TimedOut {
 			add(i, "C17", "hang", "", "%s: moq %s did not terminate", what, strings.Join(args, " "))
@@ -683,8 +696,8 @@ func (r *Runner) runStep(sc *Scenario, i int, step Step, w *world, M, srcDir, ou
 		add(i, "C18", "tree-changed-outside-out", "", "%s changed the tree outside -out: %s", cmdline, d)
 	}
 	for _, e := range act.Log {
-		if !mutating(e) {
-			continue
+		if !mutating(e) || !(strings.HasPrefix(e.Path, M+string(filepath.Separator)) || strings.HasPrefix(e.Path2, M+string(filepath.Separator))) {
+			continue // only the source tree is the property's business (a temporary file under /tmp is not)
 		}
 		if !allowedPath(e, outAbs) && !(w.outReal != "" && allowedPath(e, w.outReal)) && !transientSibling(e, M, pre, outAbs, w.outReal) {
 			add(i, "C18", "mutation-outside-out", e.Prim, "%s performed %s on %s", cmdline, e.Prim, relTo(M, e.Path))
@@ -701,9 +714,12 @@ func (r *Runner) runStep(sc *Scenario, i int, step Step, w *world, M, srcDir, ou
 		// complete file is there all the same (a fallback route, or a failure
 		// of something optional such as a directory sync): compared below
 		if !refOK {
-			if !mustFail {
-				// the same command fails when printing to stdout from the same state
-				add(i, "C17", "out-mode-succeeds-where-stdout-mode-fails", "", "%s exited 0 but the same command without -out fails: %s", cmdline, firstLine(ref.Stderr))
+			// the same command fails when printing to stdout from the same state:
+			// fine if the old -out file was what broke it and moq has stopped
+			// letting that file block its own regeneration (then the result must
+			// be what the command prints with the old file out of the way)
+			if !mustFail && !r.equalsRefWithoutPrior(step, preExists, preIsDir, refRoot, outRel, refArgs, tmp, postBytes, st) {
+				add(i, "C17", "out-mode-succeeds-where-stdout-mode-fails", "", "%s exited 0 but the same command without -out fails (%s), also with the old file removed, or the file differs from that output", cmdline, firstLine(ref.Stderr))
 			}
 		} else if !postExists {
 			add(i, "C17", "success-without-file", "", "%s exited 0 but %s does not exist", cmdline, pl.Out)
@@ -724,10 +740,13 @@ func (r *Runner) runStep(sc *Scenario, i int, step Step, w *world, M, srcDir, ou
 				add(i, "C15", "not-a-fixed-point", "", "%s run twice with its own output left in place produced different bytes (%d then %d)", cmdline, len(w.lastBytes), len(postBytes))
 			}
 		}
-		w.prior, w.lastBytes, w.lastOK = "own", postBytes, true
+		w.prior, w.lastBytes, w.lastOK, w.readonly = "own", postBytes, true, false
 	} else {
 		st.Outcomes["failure"]++
-		if refOK && len(fired) == 0 && pl.Writable && !mustFail {
+		// (a clean refusal to overwrite something moq did not write, or a
+		// read-only file, is not forbidden: success is demanded only over
+		// nothing, over moq's own output, or when -rm was given)
+		if refOK && len(fired) == 0 && pl.Writable && !mustFail && !w.readonly && (step.Rm || w.prior == "absent" || w.prior == "own" || w.prior == "stale") {
 			// nothing failed that we know of, stdout mode works: -out mode must too
 			prop, class := "C17", "unexpected-failure"
 			if step.Rm && w.prior != "absent" {
@@ -743,6 +762,11 @@ func (r *Runner) runStep(sc *Scenario, i int, step Step, w *world, M, srcDir, ou
 			add(i, "C17", "out-file-changed-on-failure", faultSite(step.Fault), "%s failed (exit %d: %s) but %s changed: %d bytes before, %d bytes after",
 				cmdline, act.Exit, firstLine(act.Stderr), pl.Out, len(preBytes), len(postBytes))
 			w.prior = "torn"
+		case preExists && postExists && !step.Rm && preInfo != nil && func() bool {
+			pi, err := os.Lstat(outAbs)
+			return err == nil && pi.Mode() != preInfo.Mode()
+		}():
+			add(i, "C17", "out-file-changed-on-failure", faultSite(step.Fault), "%s failed (exit %d) but the mode of %s changed", cmdline, act.Exit, pl.Out)
 		case preExists && !postExists && !step.Rm:
 			add(i, "C17", "out-file-removed-on-failure", faultSite(step.Fault), "%s failed (exit %d) and %s is gone although -rm was not given", cmdline, act.Exit, pl.Out)
 			w.prior = "absent"
